@@ -231,7 +231,8 @@ CLAIMED = {
                 "returns exactly the rows and cell texts of that sheet (C15_decode_encode, via the run-length lemma C15_runs_lossless and the cell text lemmas of "
                 "Proofs/OdsLemmas.lean: white-space mark-up, split/join of lines); a missing sheet, an unreadable container and a bad repeat count give a "
                 "data-format error; C15_row_containers: rows wrapped into table:table-header-rows, table:table-row-group (nested) and table:table-rows are found in "
-                "document order (repair 7fe378e), cells covered by a merge take up their column (repair d8cb48e, correspondence stream and kernel-evaluated example); "
+                "document order (repair 7fe378e), cells covered by a merge take up their column (repair d8cb48e; C15_covered_cells: decoding a row does not depend on which cells are "
+                "stored as covered cells); "
                 "one proved counterexample: row runs are not expanded (open finding; the three text findings were repaired by "
                 "dd17652). Correspondence: an independent ODF encoder (all 32 feature subsets, UTF-8 / UTF-16+BOM / "
                 "ISO-8859-1 with character references, 1-3 sheets) writes real .ods files read by the real code; the encoder's tree is compared with Lean's encodeDoc; "
